@@ -153,6 +153,12 @@ def impl_trees(bs, t1, t2, d):
     shutil.rmtree(d2, ignore_errors=True)
     write_tree(d1, t1)
     write_tree(d2, t2)
+    # same modification time on every file of both trees (copies made with copystat, repairs that restore the timestamps): a difference
+    # must be found by reading the files, never by comparing their metadata
+    for dd in (d1, d2):
+        for r_, _ds, fs_ in os.walk(dd):
+            for f_ in fs_:
+                os.utime(os.path.join(r_, f_), ns=(1_600_000_000_000_000_000, 1_600_000_000_000_000_000))
     old1, old2 = m.diff_bytes_files.__defaults__, m.diff_count_files.__defaults__
     m.diff_bytes_files.__defaults__ = (bs, 0, 0)
     m.diff_count_files.__defaults__ = (bs, 0, 0)
